@@ -227,6 +227,9 @@ def r6(ctx):
     # reaches the merge (C05-R7), and the molecule iterator emits every fragment exactly once (C07-R2)
     include(ctx, C05, [C05.r1, C05.r2, C05.r3, C05.r7], 'C20-R6')
     include(ctx, C07, [C07.r2, C07.r1, C07.r3], 'C20-R6')
+    from . import C08
+    C08.whole_contig_task_unwindowed(ctx, 'C20-R6')
+    C05.fragment_writes_all_reads(ctx, 'C20-R6')
     g = ctx.fn(TAGGING, 'run_tagging_tasks')
     hs = [h for t in walk_no_nested(g) if isinstance(t, ast.Try) for h in t.handlers
           if any(isinstance(c, ast.Call) and last_name(dotted(c.func) or '') == 'run_tagging_task' for b in t.body for c in ast.walk(b))]
